@@ -77,6 +77,18 @@ func Run(cwd, home string, env []string, args ...string) Out {
 	return out
 }
 
+// Start launches spok like Run but returns at once; the caller waits on the command.
+func Start(cwd, home string, env []string, args ...string) (*exec.Cmd, *bytes.Buffer, *bytes.Buffer, error) {
+	cmd := exec.Command(Spok(), args...)
+	cmd.Dir = cwd
+	cmd.Env = append([]string{"HOME=" + home, "PWD=" + cwd, "PATH=/usr/bin:/bin", "NO_COLOR=1", "TERM=dumb"}, env...)
+	var so, se bytes.Buffer
+	cmd.Stdout, cmd.Stderr = &so, &se
+	pool.AsNobody(cmd)
+	err := cmd.Start()
+	return cmd, &so, &se, err
+}
+
 // Entry of a snapshot.
 type Entry struct {
 	Kind string // file | dir | link | other
